@@ -414,6 +414,7 @@ func Copy(c *Ctx) error {
 			shapes := []shape{{"x", "x", false, false}, {"x", "x", true, false}, {"x", "/", false, false}, {"/", "/", true, false},
 				{"*", "/", false, true}, {"x", "new/", false, false}, {"x", "deep/er/x", false, false}, {"y", "x", false, false},
 				{"x", "y/", false, false}, {"x/y", "y", false, false},
+				{"*", "fresh", false, true}, {"*", "deep/fresh", false, true}, {"*", "fresh", true, true},
 				{"..", "/", false, false}, {"x/..", "/", false, false}, {"x/..", "y", false, false}, {"x/../..", "/", true, false}, {"../x", "../x", false, false}}
 			n := 0
 			for si, s := range srcs {
@@ -490,6 +491,10 @@ func Copy(c *Ctx) error {
 						add(model.Tree{at(l, "l"), mk("f")}, nil, "l", "copied", false, false, "srcArgIsLink")
 						add(model.Tree{at(l, "l"), mk("f")}, nil, "l/x", "copied", false, false, "srcArgThroughLink")
 						add(model.Tree{at(l, "l"), mk("f")}, nil, "*", "/", false, true, "srcWildcard")
+						// several matches into a destination that does not exist yet: the first match (the link) becomes the
+						// destination entry, the next match must not be written through it
+						add(model.Tree{at(l, "l"), mk("m"), dirE("n"), mk("n/x")}, nil, "*", "sub", false, true, "srcWildcardIntoFreshDst")
+						add(model.Tree{at(l, "l"), mk("m"), dirE("n"), mk("n/x")}, nil, "*", "sub", true, true, "srcWildcardIntoFreshDst/contents")
 						// symlink in the destination tree at the position of a source entry
 						add(model.Tree{mk("f"), dirE("d"), mk("d/x")}, model.Tree{at(l, "f"), at(l, "d")}, "/", "/", true, false, "dstTreeCollides")
 						add(model.Tree{dirE("d"), mk("d/x"), mk("d/new")}, model.Tree{at(l, "d")}, "d", "/", false, false, "dstDirIsLink")
@@ -594,6 +599,24 @@ func Copy(c *Ctx) error {
 						t[k].Uid, t[k].Gid = uint32(1+c.Rand.Intn(5)), uint32(1+c.Rand.Intn(5))
 						if c.Rand.Intn(3) == 0 {
 							t[k].Xattrs = map[string]string{"user.d": fmt.Sprint(k)}
+						}
+					}
+				}
+				// hard-link groups: whether a name is selected must not depend on what happened to another name of the inode
+				{
+					var fi []int
+					for k := range t {
+						if t[k].Type == "file" {
+							fi = append(fi, k)
+						}
+					}
+					if len(fi) >= 2 && c.Rand.Intn(2) == 0 {
+						a, b := fi[c.Rand.Intn(len(fi))], fi[c.Rand.Intn(len(fi))]
+						if a != b {
+							p := t[b].Path
+							t[a].Group = 900
+							t[b] = t[a]
+							t[b].Path = p
 						}
 					}
 				}
